@@ -7,7 +7,7 @@ from .rules.refusals import rule_assert, rule_kwsig, rule_raise, rule_regkey
 from .rules.truthy import rule_truthy
 from .rules.purity import rule_pure, rule_args, rule_global, rule_memo, rule_getter, rule_capture
 from .rules.token import rule_token
-from .rules.graph import rule_keys, rule_order, rule_cover, rule_axiskey, rule_contig, rule_loopstore, rule_bitmask, rule_meshindex, rule_wholepart
+from .rules.graph import rule_keys, rule_order, rule_cover, rule_axiskey, rule_contig, rule_loopstore, rule_bitmask, rule_meshindex, rule_wholepart, rule_sliceexact
 from .rules import misc as M
 from .rules.lazyrule import rule_lazy
 from .rules.pickle_nondet import rule_pickle, rule_nondet, rule_fillflow
@@ -99,7 +99,7 @@ PROPERTIES = {
         "explanation": "R-ALGEBRA (arg rows), R-ORDER, R-STABLE, R-KEYS, R-GLOBALIDX, R-CONTIG (tree nodes combine adjacent blocks in order: ties and first/last resolve positionally)",
     },
     "C07": {
-        "rules": [M.rule_sentinel_ravel, PR.rule_pairs_groupers, CD.rule_codewidth, CD.rule_identitycodes, CD.rule_labelvalue, CD.rule_closedside, CD.rule_missingcode, PR.rule_codedep, PR.rule_codelabels, PR.rule_pairs_transpose, rule_absentmask],
+        "rules": [M.rule_sentinel_ravel, PR.rule_pairs_groupers, CD.rule_codewidth, CD.rule_identitycodes, CD.rule_labelvalue, CD.rule_closedside, CD.rule_missingcode, PR.rule_codedep, PR.rule_codelabels, PR.rule_pairs_transpose, rule_absentmask, CD.rule_edgevalue],
         "thorough": [selftest, seeded_regression],
         "technique": "CFG must-pass-through of a masked sentinel restore",
         "level_text": "Static, all-paths: after the per-grouper codes are combined arithmetically, every path to return restores the "
@@ -173,7 +173,7 @@ PROPERTIES = {
         "explanation": "R-KEYS, R-ORDER, R-AXISKEY, R-GLOBAL, R-ALGEBRA, R-CONTIG, R-PURE (no task writes into a value another task may read: the order of unordered tasks cannot matter)",
     },
     "C09": {
-        "rules": [rule_cover, rule_keys, rule_axiskey, rule_token, rule_loopstore, rule_bitmask, CD.rule_indexer, rule_meshindex, rule_wholepart],
+        "rules": [rule_cover, rule_keys, rule_axiskey, rule_token, rule_loopstore, rule_bitmask, CD.rule_indexer, rule_meshindex, rule_wholepart, rule_sliceexact],
         "thorough": [selftest, seeded_regression],
         "technique": "def-use closure checks on the planner's cohort->blocks map and on cohort sub-tree keys; content-named subset layers",
         "level_text": "Static, all-paths: the block set stored for a merged cohort is computed from the blocks of every member label (and "
